@@ -520,8 +520,98 @@ def run_inplace(case, agg):
         agg.ok(h8("c06i", case), f"ok:in-place:{sub}", sample=case if case["via"] == "cli" and L == 40 and sub == "gi-both" else None)
 
 
+# -- several KMS scripts in one process; scripts also named by the environment ----------------------------------
+ALT_KMS = '''"""a second KMS: the stock file-based one with its own key store (same key names, other keys)"""
+import importlib.util
+_spec = importlib.util.spec_from_file_location("svmc_stock_kms_for_encrypt", %r)
+_m = importlib.util.module_from_spec(_spec)
+_spec.loader.exec_module(_m)
+
+
+class SuitKMS(_m.SuitKMS):
+    def init_kms(self, context):
+        super().init_kms(%r)
+
+
+def suit_kms_factory():
+    return SuitKMS()
+'''
+DECOY = '''raise RuntimeError("a script named by the ENVIRONMENT was loaded although the command line names one")
+'''
+KMS_RUNS = [(k, via) for k in ("stock", "alt") for via in ("main", "object", "object-reused")]
+
+
+def kmsseq_cases(tier):
+    return [{"runs": list(p), "env": e} for n in (1, 2, 3) for p in itertools.product(range(len(KMS_RUNS)), repeat=n)
+            for e in (("none",) if n == 3 else ("none", "NCS_SUIT_KMS_SCRIPT", "ZEPHYR_BASE"))]
+
+
+def run_kmsseq(case, agg):
+    """a history of encryptions in ONE process with two different KMS scripts that share their file name (basic_kms.py in two
+    directories, each with its own key store), optionally with NCS_SUIT_*_SCRIPT / ZEPHYR_BASE pointing at other
+    scripts: every run is encrypted by the KMS its --kms-script names (the artifacts decrypt with THAT store's key)"""
+    from suit_generator import cmd_encrypt
+    from suit_generator.suit_encrypt_script_base import SuitDigestAlgorithms, SuitKWAlgorithms
+    es, ks = escripts()
+    label = f"encryptions in one process {[KMS_RUNS[i] for i in case['runs']]}, environment {case['env']}"
+    saved = {k: os.environ.get(k) for k in ("NCS_SUIT_KMS_SCRIPT", "NCS_SUIT_ENCRYPT_SCRIPT", "NCS_SUIT_SIGN_SCRIPT", "ZEPHYR_BASE")}
+    with fresh_dir("c06s") as d:
+        os.makedirs(os.path.join(d, "alt"))
+        alt = os.path.join(d, "alt", os.path.basename(ks))
+        open(alt, "w").write(ALT_KMS % (ks, vkeys.key_dir_alt()))
+        nd = os.path.join(d, "sdk", "modules", "lib", "suit-generator", "ncs")
+        os.makedirs(nd)
+        os.makedirs(os.path.join(d, "sdk", "zephyr"))
+        for f in ("basic_kms.py", "encrypt_script.py", "sign_script.py"):
+            open(os.path.join(nd, f), "w").write(DECOY)
+        try:
+            if case["env"] == "NCS_SUIT_KMS_SCRIPT":
+                os.environ["NCS_SUIT_KMS_SCRIPT"] = os.path.join(nd, "basic_kms.py")
+                os.environ["NCS_SUIT_ENCRYPT_SCRIPT"] = os.path.join(nd, "encrypt_script.py")
+            elif case["env"] == "ZEPHYR_BASE":
+                os.environ["ZEPHYR_BASE"] = os.path.join(d, "sdk", "zephyr")
+            shared = _encryptor()
+            for n, ri in enumerate(case["runs"]):
+                which, via = KMS_RUNS[ri]
+                script, key = (ks, vkeys.aes_key("aes")) if which == "stock" else (alt, vkeys.aes_key("aes_alt"))
+                pt = plaintext(40 + n, n)
+                od = os.path.join(d, f"o{n}")
+                os.makedirs(od)
+                try:
+                    if via == "main":
+                        fw = os.path.join(d, f"fw{n}.bin")
+                        open(fw, "wb").write(pt)
+                        cmd_encrypt.main(encrypt_subcommand="encrypt-and-generate", firmware=fw, key_name="aes", key_id=7, context=vkeys.key_dir(),
+                                         output_dir=od, hash_alg="sha-256", kw_alg="direct", kms_script=script, encrypt_script=es)
+                    else:
+                        e = shared if via == "object-reused" else _encryptor()
+                        ep, tag, info, dg, sz = e.encrypt_and_generate(pt, "aes", 7, vkeys.key_dir(), SuitDigestAlgorithms("sha-256"), SuitKWAlgorithms("direct"), script)
+                        open(os.path.join(od, "plain_text_digest.bin"), "wb").write(dg)
+                        open(os.path.join(od, "plain_text_size.txt"), "w").write(str(sz))
+                        open(os.path.join(od, "suit_encryption_info.bin"), "wb").write(info)
+                        open(os.path.join(od, "encrypted_content.bin"), "wb").write(tag + ep)
+                except Exception as ex:
+                    agg.viol(f"C06:kms-scripts/failed/{type(ex).__name__}", f"{label}: run {n + 1}: {type(ex).__name__}: {str(ex)[:200]}")
+                    return
+                r = check_artifacts(od, key, pt, 7, "sha-256")
+                problems = r[0] if isinstance(r, tuple) else r
+                if problems:
+                    agg.viol(f"C06:kms-scripts/{problems[0][0]}", f"{label}: run {n + 1} (KMS script {which}): " + "; ".join(p[1] for p in problems[:2]))
+                    return
+        finally:
+            for k, v in saved.items():
+                if v is None:
+                    os.environ.pop(k, None)
+                else:
+                    os.environ[k] = v
+    agg.ok(h8("c06s", case), f"ok:runs={len(case['runs'])}:{case['env']}", sample=case if case["runs"] == [0, 4] and case["env"] == "none" else None)
+
+
 def plan(tier):
     return [
+        CaseStage("kms-scripts-in-one-process", lambda: kmsseq_cases(tier), run_kmsseq,
+                  rule="all sequences of <= 3 encryptions {stock, second KMS script of the same file name} x {main, new Encryptor, reused Encryptor}; "
+                       "sequences of <= 2 also with NCS_SUIT_KMS_SCRIPT / ZEPHYR_BASE naming other scripts"),
         CaseStage("key-names", lambda: keyname_cases(tier), run_keyname, chunk=1, rule="AES key names with dots (sibling with the truncated name present / absent) x library / main / CLI"),
         CaseStage("input-at-output-path", lambda: inplace_cases(tier), run_inplace, chunk=1,
                   rule="every input of both sub-commands stored under every artifact name of the output directory x main / CLI"),
